@@ -18,6 +18,40 @@ def parseGroups (s : String) : Option (List Nat) :=
 
 def bytesOfLen (n : Nat) : List UInt8 := List.replicate n 97
 
+/-- `3:1,0:2` → [(3,1),(0,2)] -/
+def parseTemplate (s : String) : Option (List (Nat × Nat)) :=
+  if s == "." then some [] else
+  (s.splitOn ",").mapM (fun g =>
+    match g.splitOn ":" with
+    | [l, o] => do
+      let l ← l.toNat?
+      let o ← o.toNat?
+      pure (l, o)
+    | _ => none)
+
+/-- the command as written (`{}` is two bytes) and after substituting a line of `l` bytes -/
+def writtenLens (recLen : Nat) (tmpl : List (Nat × Nat)) : List Nat := recLen :: tmpl.map (fun t => t.1 + 2 * t.2)
+def substLens (recLen : Nat) (tmpl : List (Nat × Nat)) (l : Nat) : List Nat := recLen :: tmpl.map (fun t => t.1 + l * t.2)
+
+/-- replace mode over lengths: `CommandBuilderOptions::new` charges the command as written; every
+    line goes through `add_arg` (alone: -I implies one line per command); `execute` substitutes,
+    passes the result through the limiters afresh (too long: reported, status 1) and hands it to
+    exec, which the kernel accepts or not (`Argument list too long`, status 126) -/
+def replaceRun (lim : Limits) (klimit : Nat) (recLen : Nat) (tmpl : List (Nat × Nat)) (ev : List Nat) :
+    List Nat → List Nat → Nat × List Nat
+  | [], log => (0, log)
+  | l :: rest, log =>
+    match initState lim LState.zero ((writtenLens recLen tmpl).map bytesOfLen) with
+    | none => (1, log)
+    | some init =>
+      match tryArg lim init ⟨bytesOfLen l, .hard⟩ with
+      | .error _ => (1, log)
+      | .ok _ =>
+        let sub := substLens recLen tmpl l
+        if (initState lim LState.zero (sub.map bytesOfLen)).isNone then (1, log)
+        else if execAcceptsL klimit recLen sub ev then replaceRun lim klimit recLen tmpl ev rest (log ++ [sub.sum])
+        else (126, log)
+
 def handle (verb : String) (args : List String) : Option String :=
   match verb, args with
   | "arg-max", [stack] => do
@@ -47,6 +81,19 @@ def handle (verb : String) (args : List String) : Option String :=
     | some init =>
       let run := processInputR cfg init false init [] false false [] [] (inp.map (fun l => ⟨bytesOfLen l, .hard⟩))
       pure ("st=" ++ toString run.status ++ " " ++ joinList (run.batches.map (fun b => toString b.length)))
+  -- replace mode (`-I {}`): the command word's length, template words as <literal bytes>:<occurrences
+  -- of {}>, one input line per command; answer = status and the bytes of every started command
+  | "xargs-sysI", [stack, s, recLen, tmpl, envp, lines] => do
+    let st ← stack.toNat?
+    let s ← s.toNat?
+    let recLen ← recLen.toNat?
+    let tmpl ← parseTemplate tmpl
+    let ev ← parseGroups envp
+    let lines ← parseGroups lines
+    let sys := sysBudget (sysconfArgMax st) ev
+    let lim : Limits := ⟨some 1, none, if s == 0 then none else some s, sys, 8, 131072⟩
+    let r := replaceRun lim (kernelLimit st) recLen tmpl ev lines []
+    pure ("st=" ++ toString r.1 ++ " " ++ joinList (r.2.map toString))
   | _, _ => none
 
 /-- C06 predicate: no command line is rejected by the system (status 126 never; every observed
@@ -85,6 +132,29 @@ def predC06 (req obs : List String) : Option Bool :=
       let firstBig := (inp.takeWhile (fun l => !cannotPass l)).length
       pure (status == 1 && allOk && delivered ≤ firstBig)
     else pure (status == 0 && allOk && delivered == inp.length)
+  | ["xargs-sysI", stack, sopt, recLen, tmpl, envp, lines], [st, totals] => do
+    let stack ← stack.toNat?
+    let sLimit ← sopt.toNat?
+    let recLen ← recLen.toNat?
+    let tmpl ← parseTemplate tmpl
+    let ev ← parseGroups envp
+    let lines ← parseGroups lines
+    if !st.startsWith "st=" then none else
+    let status ← (st.drop 3).toString.toNat?
+    let totals ← (splitList totals).mapM String.toNat?
+    -- a line "cannot be passed" when the command it gives after substitution has an argument above
+    -- the per-argument limit, is not acceptable to exec once the 2048 bytes of POSIX headroom are
+    -- set aside, or (with -s) exceeds max-chars; the line itself obeys the same rules (C04)
+    let cannotPass := fun (l : Nat) =>
+      let sub := substLens recLen tmpl l
+      l + 1 > 131072 || !execAcceptsL (kernelLimit stack - 2048) recLen sub ev ||
+        !execAcceptsL (kernelLimit stack - 2048) recLen (writtenLens recLen tmpl ++ [l]) ev ||
+        (sLimit > 0 && ((sub.map (· + 1)).sum > sLimit || ((writtenLens recLen tmpl).map (· + 1)).sum + l + 1 > sLimit))
+    let good := lines.takeWhile (fun l => !cannotPass l)
+    let expected := good.map (fun l => (substLens recLen tmpl l).sum)
+    if status == 126 then pure false
+    else if good.length < lines.length then pure (status == 1 && totals == expected)
+    else pure (status == 0 && totals == expected)
   | ["exec-accepts", _, _, _, _], _ => some true
   | ["arg-max", _], _ => some true
   | _, _ => none
